@@ -177,7 +177,7 @@ def body_for(case):
 def run_case(case: Dict) -> Dict:
     specs = [dict(s, kind="array") for s in case["operands"]]
     lim = case.get("limits", {})
-    return H.explore_case(case, body, H.collect_atoms(specs), max_paths=lim.get("max_paths", 2000), time_budget=lim.get("time", 45.0), int_atoms=True, options=case.get("options"))
+    return H.explore_case(case, body, H.collect_atoms(specs), max_paths=lim.get("max_paths", 2000), time_budget=lim.get("time", 45.0), int_atoms=case.get("fn") != "nonconst-divisor", options=case.get("options"))
 
 
 def gen_cases(tier: str, seed: int) -> List[Dict]:
